@@ -9,6 +9,11 @@ optional pre-existing PS/HP phase, decoy multi-ALT / duplicate records with phas
   A = phase(in, tag1)   B = phase(in, tag2)   C = phase(A, tag2 [, --sample subset] [, --chromosome first])   U = unphase(C)
   D = phase(U, tag1)    E = phase(C, tag1)    Q = phase(in, phase input = A only)            (tag2 = the other tag)
 
+File-level stream (in-process, `run_file_case`): whole multi-sample / multi-chromosome files through the real reader
+(== Lean `c09.readfile` == independent decoder), the real PhasedInputReader (== `c09.phaseinput`) and the real
+PhasedVcfWriter.write with arbitrary super-reads and both values of remove_existing_phasing (== `c09.writefile` / `c09.writex`,
+plus the property oracle on the output).
+
 Oracle on every phase output, per target sample (independent decoder on the pysam-parsed records, expected
 phase from the trace): every decodable phase statement is the one this run wrote and every written one decodes
 to itself (round trip + no stale phase + never both encodings in one call); A and B decode equally (PS ≡ HP);
@@ -31,13 +36,22 @@ RULE = ("one history of 6 CLI runs (phase with PS, phase with HP, re-phase of th
         "variants; distinct = distinct (generator seed, options). Additionally generator-written phase inputs (PS or HP encoded, "
         "1-3 samples, 2-3 phase sets per sample laid out interleaved / nested / contiguous): the real phased_blocks_as_reads "
         "in-process, and run Q on them; non-trivial there: a multi-variant set has a member of another multi-variant set "
-        "between two of its members")
+        "between two of its members. File-level stream (in-process): one variant file and 1-2 phase files over 1-3 contigs and "
+        "samples (encodings per file / contig / sample, malformed HP, other ploidies, PQ, skipped and duplicate records, split "
+        "contigs, missing samples): the real VcfReader(phases=True) on whole files, the real PhasedInputReader and the real "
+        "PhasedVcfWriter.write with arbitrary super-reads, target / chromosome subsets and both values of "
+        "remove_existing_phasing; non-trivial there: a table with a phase, a query with pseudo reads, a write() that had to "
+        "state a phase")
 MANIFEST = dict(
     text="Lean 4 theorems about the encoders (_set_PS/_set_HP), the tag-independent removal and the two decoders: "
          "ps_roundtrip, hp_roundtrip, decode_written (master lemma: after write exactly the new statement decodes, through "
          "the decoder of the tag only), ps_hp_equivalent, rephase_no_stale_phase, pseudo reads complementary/cover; F4 "
          "witnesses on the faithful model; tied to the working tree by pipeline histories of real CLI runs decoded by "
-         "whatshap's reader, the Lean decoder and an independent decoder",
+         "whatshap's reader, the Lean decoder and an independent decoder; file level: reader with ploidy and per-chromosome "
+         "state (reader_rows_sorted, reader_phase_is_genotype_order), reader after writer on sorted chromosomes with duplicate "
+         "positions and --only-snvs and on whole files (read_written_chrom, read_written_file), the chromosome loop "
+         "(rephase_file_no_stale_phase), PhasedInputReader (phase_input_reader_reads) and the chain phase-input file -> reader -> "
+         "pseudo reads -> solver (phase_input_reproduces_sets)",
     design_ref="DESIGN.md §5 C09, §6 F4",
     note="trusted: Lean kernel; hand-written model (differential: quick 8 histories = 48 CLI runs, thorough 60); the HP text "
          "codec and htslib parsing are in the harness. F4 (a: old encoding kept when re-phasing with the other tag, "
@@ -49,6 +63,8 @@ MANIFEST = dict(
 ASSUMPTIONS = [
     "phase sets of the pseudo-read run fit under the coverage cap (checked per case: at most 7 blocks per sample and chromosome)",
     "the trace hook reports the super-reads and components that `PhasedVcfWriter.write` received",
+    "htslib/pysam parsing, the HP text codec and the float -> int conversion of PQ are harness glue (typed values in the model)",
+    "on a chromosome that --chromosome does not request no sample is a target: the records must be unchanged there",
 ]
 
 
